@@ -250,7 +250,7 @@ class AbstractAst:
                 raise RTAMTException('{} is not a type.'.format(var_type))
             try:
                 var = class_()
-            except TypeError as err:
+            except Exception as err:
                 raise RTAMTException('A variable of type {0} cannot be created: {1}'.format(var_type, err))
         return var
 
@@ -298,16 +298,18 @@ class AbstractAst:
         try:
             module = importlib.import_module(from_name)
             self.modules[module_name] = module
-        except ImportError:
-            raise RTAMTException('The module {} cannot be loaded'.format(from_name))
+        except (Exception, SystemExit) as err:
+            # (importing a module runs its code: whatever it raises, the module cannot be used)
+            raise RTAMTException('The module {0} cannot be loaded: {1}'.format(from_name, err))
 
     def set_var_topic(self, var_name, var_topic):
         if not var_name in self.vars:
             logging.warning(
                 'The variable {0} is not declared. Setting its topic name to {1} is ignored.'.format(var_name,
                                                                                                      var_topic))
+        elif var_name in self.const_val_dict:
+            logging.warning('{0} is a constant. Setting its topic name to {1} is ignored.'.format(var_name, var_topic))
         else:
-            topic = self.var_topic_dict[var_name]
             self.var_topic_dict[var_name] = var_topic
 
     def set_var_io_type(self, var_name, var_iotype):
